@@ -322,7 +322,7 @@ def run_check(prop: str, tier: str, seed: int, replay: Optional[dict], *, profil
         for i in range(n):
             prof = profile
             if profile == "c01+quant":
-                prof = "quant" if i % 4 == 3 else ("flat" if i % 8 == 1 else ("subq" if i % 8 == 5 else "c01"))
+                prof = "quant" if i % 4 == 3 else ("flat" if i % 8 == 1 else ("subq" if i % 8 == 5 else ("share" if i % 8 == 2 else "c01")))
                 if i % 32 == 9:
                     prof = "flat0"      # flattened collections that may be empty (finding class K_emptyflat, three-way)
                 elif i % 32 == 13:
